@@ -68,7 +68,7 @@ CLAIMED["C10"] = dict(
     note="Assumed: bindnode schema strictness (unknown, missing or wrongly typed payload fields are rejected by AssignNode against the embedded .ipldsch) — a dependency behaviour contracts cannot decide here; "
          "the reflection-based slow path of literal.Any (anyAssemble) is abstracted; policy.FromIPLD is used through a trusted contract (its shape is C14).",
     design="DESIGN.md §3 C10")
-for pid in ["C07","C09","C16","C19"]:
+for pid in ["C07","C09","C19"]:
     NOT_APPLICABLE[pid] = "contracts for this property are not registered yet in this tree (work in progress; see DESIGN.md §6 staging)"
 
 STREAM_NOTE = ("Assumed (trusted, stubs/io.spec): the io.Reader / io.Writer protocol; delivered/written and the fault counters failed/wfailed are ghost history variables of the "
@@ -139,3 +139,14 @@ CLAIMED["C11"] = dict(
          "the unfolding of wfStmt and the definition of sem are `given` clauses — definitional). ['or', []] is true and `any` over an empty list is false (the implementation's conventions, pinned by the existing tests). "
          "Assumed: datamodel.DeepEqual, cmp.Compare, math.IsInf/IsNaN, node observers through stubs; floats are an uninterpreted sort (NaN / Inf only as 'comparison is false').",
     design="DESIGN.md §3 C11, §7")
+
+CLAIMED["C16"] = dict(
+    text="Proof over uninterpreted multibase / varint / key functions (a data-flow theorem about the real bodies): did.Parse accepts exactly the texts 'did:key:' + a Base58BTC multibase string whose bytes start with a minimal varint of a supported key code "
+         "(Ed25519, P-256, P-384, P-521, secp256k1, RSA) and returns those bytes and that code; DID.String prints 'did:key:' + Base58BTC(bytes); the lemma text_roundtrip shows that printing then parsing gives back the DID for every code FromPubKey can produce "
+         "(it needs generatable codes to be parseable, multibase decode-after-encode and varint read-after-write: two axioms on the dependencies); FromPubKey is verified to produce a generatable code and bytes that start with the varint of exactly that code; "
+         "DID.PubKey and the ECDSA / RSA unmarshallers are verified to return a key or an error for every DID accepted by Parse (no panic: the nil point of elliptic.UnmarshalCompressed is checked; the slice bound follows from the varint prefix), "
+         "and a secp256k1 identifier yields a key only in the compressed form FromPubKey produces.",
+    note="Assumed (stubs/multiformats.spec, stubs/crypto.spec): multibase decode(encode(Base58BTC, b)) = b; varint read-after-write and minimality; the shapes of libp2p / x509 / elliptic results (an ECDSA-typed key wraps a non-nil *ecdsa.PublicKey, "
+         "PKIX of a libp2p ECDSA / RSA key parses back to a key of that kind, UnmarshalCompressed may return (nil, nil)). Not decided (honest gap): equality of the extracted key with the original and injectivity of key serialisation "
+         "(they live in the cryptographic libraries: the dispatch through the unmarshaller table is an opaque function value here), canonical encodings of RSA keys.",
+    design="DESIGN.md §3 C16, §7")
